@@ -392,6 +392,51 @@ fn round_trip<T: Serialize + DeserializeOwned + PartialEq + Debug>(v: &T) -> (bo
     (value_ok, text_ok, detail)
 }
 
+/// The library's own writers (Json / JsonPretty `to_writer`) on a typed value: writing the same value again, and
+/// writing what was read back, reproduces the bytes; the bytes are the interchange's canonical form of the value.
+fn writer_stable<T: Serialize + DeserializeOwned + PartialEq + Debug>(v: &T) -> Option<String> {
+    use in_toto::interchange::{DataInterchange, Json, JsonPretty};
+    for pretty in [false, true] {
+        let name = if pretty { "JsonPretty" } else { "Json" };
+        let write = |x: &T| -> Result<Vec<u8>, String> {
+            let mut buf = vec![];
+            let r = if pretty { JsonPretty::to_writer(&mut buf, x) } else { Json::to_writer(&mut buf, x) };
+            r.map_err(|e| e.to_string())?;
+            Ok(buf)
+        };
+        let first = match guarded(|| write(v)) {
+            Ok(Ok(b)) => b,
+            Ok(Err(e)) => return Some(format!("{name}::to_writer refuses the value: {e}")),
+            Err(p) => return Some(format!("panic: {p}")),
+        };
+        let canon = serde_json::to_value(v).ok().and_then(|val| if pretty { JsonPretty::canonicalize(&val).ok() } else { Json::canonicalize(&val).ok() });
+        // (the pretty writer lays the document out for reading; only the compact one is held to the canonical bytes)
+        if !pretty && canon.as_deref() != Some(&first[..]) {
+            return Some(format!("{name}::to_writer does not write the canonical form"));
+        }
+        for round in 0..3 {
+            match guarded(|| write(v)) {
+                Ok(Ok(b)) if b == first => {}
+                _ => return Some(format!("{name}::to_writer writes the same value differently (round {round})")),
+            }
+            let back = guarded(|| if pretty { JsonPretty::from_slice::<T>(&first) } else { Json::from_slice::<T>(&first) }.map_err(|e| e.to_string()));
+            match back {
+                Ok(Ok(x)) => {
+                    if x != *v {
+                        return Some(format!("value changed through {name}::to_writer"));
+                    }
+                    match guarded(|| write(&x)) {
+                        Ok(Ok(b)) if b == first => {}
+                        _ => return Some(format!("{name}: what was read back is written differently")),
+                    }
+                }
+                _ => return Some(format!("{name}::to_writer output rejected by {name}::from_slice")),
+            }
+        }
+    }
+    None
+}
+
 // ---------------------------------------------------------------- rules
 fn rule_fields(r: &ArtifactRule) -> Value {
     match r {
@@ -665,13 +710,24 @@ impl Ctx {
                 }
             }
         }
+        // the library's writers on block and wrapper - and on a variant of the link whose artifacts carry two digests
+        // each (digest maps are unordered containers: the WRITTEN form may not depend on their iteration order)
+        let mut writers = writer_stable(&block).or_else(|| writer_stable(&meta));
+        if let (None, MetadataWrapper::Link(l)) = (&writers, &meta) {
+            let mut l2 = l.clone();
+            for (n, sym) in ["both:h4", "both:h5", "both:h6", "both:h7", "both:h8"].iter().enumerate() {
+                l2.products.insert(VirtualTargetPath::new(format!("two/{n}")).unwrap(), target(sym));
+            }
+            let m2 = MetadataWrapper::Link(l2);
+            writers = writer_stable(&m2).or_else(|| writer_stable(&Metablock::new(m2.clone(), &sks).unwrap()));
+        }
         // the auto-detecting byte parser must agree with the typed one
         let bytes = serde_json::to_vec(&meta).unwrap();
         let auto = guarded(|| MetadataWrapper::try_from_bytes(&bytes));
         let auto_ok = matches!(&auto, Ok(Ok(m)) if *m == meta);
-        json!({"out": "ok", "value_ok": v1 && v2 && v3 && auto_ok && parse_alters.is_none(), "text_ok": t1 && t2 && t3,
+        json!({"out": "ok", "value_ok": v1 && v2 && v3 && auto_ok && parse_alters.is_none(), "text_ok": t1 && t2 && t3 && writers.is_none(),
                "channels_agree": a1 && a2 && a3,
-               "detail": parse_alters.or(d1).or(d2).or(d3).or(c1).or(c2).or(c3).or(if auto_ok { None } else { Some("try_from_bytes differs".to_string()) })})
+               "detail": parse_alters.or(writers).or(d1).or(d2).or(d3).or(c1).or(c2).or(c3).or(if auto_ok { None } else { Some("try_from_bytes differs".to_string()) })})
     }
 }
 
